@@ -5,6 +5,9 @@ Period limit   : period_refines_spec, period_exact_quota, period_grants_exactly_
                  store_error_never_grants, reply_code_table
 Token limit    : ttl_covers_burst, token_refines_bucket, token_rate_bound, joint_meter_sound
 Rescue limiter : rescue_local_bound, rescue_rate_exact
+Leaving rescue : rescue_mode_has_monitor, monitor_no_lost_wakeup, monitor_at_most_one, rescue_quiescent_has_monitor,
+                 seeded_order_loses_wakeup (witness for the order `redisAlive=0` before the `monitorStarted` check)
+Arguments      : align_window, quota_zero_never_grants, window_zero_never_limits
 Defects (witnesses about the faithful model of the pinned code):
                  pinned_ttl_zero_script_fails, pinned_never_uses_store, pinned_ttl_zero_overgrants,
                  rescue_exceeds_nominal_rate
@@ -383,6 +386,14 @@ theorem window_zero_never_limits (quota : Nat) (s : PSys) (k : String) (hu : s.u
 example : (PSys.run 3 0 PSys.init [.take "a", .take "a", .take "a", .take "a", .take "a"]).filterMap id
     = List.replicate 5 (Code.allowed, PErr.nil) := by decide
 
+
+/-- what the script does with arguments nothing validates (observed identically on the real code):
+rate 3, burst 5, fresh keys: `n = -2` is granted and leaves 7 > burst tokens stored (capped again by the next call);
+rate −2, burst 3: the bucket holds 3 − 2·now tokens, nothing positive is ever granted. -/
+example : (tokenScriptZ 3 5 1700000000 (-2) ⟨none, none⟩) = (⟨some 7, some 1700000000⟩, true) ∧
+    (tokenScriptZ 3 5 1700000000 5 ⟨some 7, some 1700000000⟩) = (⟨some 0, some 1700000000⟩, true) ∧
+    (tokenScriptZ (-2) 3 1700000000 1 ⟨none, none⟩) = (⟨some (-3399999997), some 1700000000⟩, false) ∧
+    ttlZ (-2) 3 = 1 ∧ ttlZ 3 5 = 3 := by decide
 
 /-! ## Defects: witnesses on the faithful model of the pinned code -/
 
